@@ -316,7 +316,63 @@ func externals() map[string]ExtFn {
 		if n := len(out); n > 0 && out[n-1].Hole == nil {
 			out[n-1] = Piece{Lit: strings.TrimRight(out[n-1].Lit, " \t\r\n")}
 		}
+		// a symbolic part at either end loses its own outer white space: it is no longer the text that was written
+		mark := func(i int) {
+			if h := out[i].Hole; h != nil {
+				for _, t := range h.Tr {
+					if t == "trimspace" {
+						return
+					}
+				}
+				nh := *h
+				nh.Tr = append(append([]string{}, h.Tr...), "trimspace")
+				out[i] = Piece{Hole: &nh}
+			}
+		}
+		if len(out) > 0 {
+			mark(0)
+			mark(len(out) - 1)
+		}
 		return Cat(Str{P: out})
+	}
+	e["(reflect.Value).IsZero"] = func(m *Machine, a []Value) Value {
+		rv := a[0].(ReflectVal)
+		var z func(v Value) bool
+		z = func(v Value) bool {
+			switch x := v.(type) {
+			case nil:
+				return true
+			case bool:
+				return !x
+			case int64:
+				return x == 0
+			case float64:
+				return x == 0
+			case Str:
+				if c, ok := x.Concrete(); ok {
+					return c == ""
+				}
+				for _, p := range x.P {
+					if p.Hole != nil && p.Hole.A.NonEmpty {
+						return false
+					}
+				}
+				panic(m.undecided("reflect IsZero of a symbolic string that may be empty"))
+			case Iface:
+				if x.T == nil {
+					return true
+				}
+				return z(x.V)
+			case Ptr:
+				return x.P == nil
+			case Slice:
+				return x.Back == nil
+			case *Map:
+				return x == nil || x.Nil
+			}
+			panic(m.undecided("reflect IsZero of %T", v))
+		}
+		return z(rv.X)
 	}
 	e["strings.Contains"] = func(m *Machine, a []Value) Value {
 		s, sub := strArg(m, a[0]), concArg(m, a[1], "strings.Contains substring")
